@@ -403,7 +403,12 @@ def check_sum_case(T, sc, stats):
     try:
         wd = W.sub()
         names = []
-        for i, (size, cseed) in enumerate(sc["files"]):
+        files = list(sc["files"])
+        # copies: with an odd "pos" every file after the first has the content of its predecessor (an original and its
+        # backups), so that equal digests follow each other in the list
+        if sc["mod"]["pos"] & 1:
+            files = [files[0]] * len(files)
+        for i, (size, cseed) in enumerate(files):
             nm = sc["names"][i]
             with open(os.path.join(wd, nm), "wb") as f:
                 f.write(content(size, cseed))
@@ -418,7 +423,7 @@ def check_sum_case(T, sc, stats):
             rc2, o2 = sh([refcli_path(), mode, os.path.join(wd, nm)])
             digests.append(o2.strip())
             want += "%s  %s\n" % (o2.strip(), nm)
-        stats["nontrivial"].add(("sum", sc["alg"], tuple(s for s, _ in sc["files"])))
+        stats["nontrivial"].add(("sum", sc["alg"], tuple(s for s, _ in files), sc["mod"]["pos"] & 1))
         if rc != 0 or so.decode("utf-8", "replace") != want:
             return ("asconsum %s printed %r (rc=%d), expected %r" % (flag or "", so.decode("utf-8", "replace")[:200], rc, want[:200]), {"step": "digest"})
         # check mode on the unmodified list
@@ -492,6 +497,24 @@ def check_sum_case(T, sc, stats):
             return ("asconsum -c (%s) exited 0 although something is wrong: %r" % (m["kind"], out[:200]), {"step": "check-mod"})
         if rc < 0:
             return ("asconsum -c died with signal %d" % -rc, {"step": "check-mod"})
+        # an original and its copy listed one after the other, the copy then removed: its line must not be OK
+        wd2 = W.sub()
+        size0, cseed0 = sc["files"][0]
+        for nm in ("orig.bin", "copy.bin"):
+            with open(os.path.join(wd2, nm), "wb") as f:
+                f.write(content(size0, cseed0))
+        rc, so, se = runp([T["asconsum"]] + ([flag] if flag else []) + ["orig.bin", "copy.bin"], wd2)
+        with open(os.path.join(wd2, "l.ascon"), "wb") as f:
+            f.write(so)
+        os.remove(os.path.join(wd2, "copy.bin"))
+        rc, so, se = runp([T["asconsum"]] + ([flag] if flag else []) + ["-c", "l.ascon"], wd2)
+        stats["runs"] += 2
+        stats["nontrivial"].add(("sum-copy-missing", sc["alg"], size0))
+        out = so.decode("utf-8", "replace")
+        if "copy.bin: OK" in out or rc == 0:
+            return ("asconsum -c: copy.bin (same digest as the entry before it) was removed, yet the output is %r with exit status %d" % (out[:200], rc), {"step": "check-copy-missing"})
+        if "orig.bin: OK" not in out:
+            return ("asconsum -c: unmodified orig.bin not reported OK: %r" % out[:200], {"step": "check-copy-missing"})
         return None
     finally:
         W.close()
